@@ -99,6 +99,9 @@ def generate(rnd, tier):
         for i_, r_ in enumerate(rows):
             if i_ % 4 == 2:
                 r_["label"] = None
+    if rnd.random() < 0.12:
+        frame["names"] = {"groups": rnd.sample(["label", "score", "group", "index", "groups", "threshold"], n_cols),
+                          "label": rnd.choice(["y", "target", "labels"]), "score": rnd.choice(["s", "scores", "value"])}
     if rnd.random() < 0.15:
         frame["group_dtype"] = rnd.choice(["category", "string", "category_reordered"])  # string values, other pandas dtypes
     if not frame["int_scores"] and rnd.random() < 0.12:
@@ -130,6 +133,8 @@ def generate(rnd, tier):
               "score_class": rnd.choice(["pos", "neg"]), "equal_class": rnd.choice(["pos", "neg"]),
               "group_columns": cols if as_list else cols[0], "bootstrap_ci": boot,
               "alpha": round(rnd.uniform(0.01, 0.5), 3) if rnd.random() < 0.85 else round(rnd.uniform(0.5, 0.95), 2)}
+        if rnd.random() < 0.5:
+            op["omit"] = [k_ for k_ in ("normalize", "pos_label", "score_class", "equal_class") if rnd.random() < 0.6]
         if len(cols) > 1 and rnd.random() < 0.4:
             # the caller names the group columns in another order than the frame has them (or only some of them)
             sub = rnd.sample(cols, rnd.randint(2, len(cols)) if rnd.random() < 0.8 else 1)
@@ -200,14 +205,21 @@ def build_frame(fr):
             data["extra"] = [float("nan") if i % 3 == 1 else float(i) for i in range(len(rows))]
         order = ["extra"] + order
     df = pd.DataFrame({c: data[c] for c in order})
+    if fr.get("names"):
+        # the caller's own column names: group columns that happen to be called "label" / "score" / "group" / "index",
+        # label and score columns called something else
+        nm = fr["names"]
+        ren = {c: nm["groups"][k] for k, c in enumerate(fr["group_cols"])}
+        df = df.rename(columns={"label": "__l", "score": "__s"}).rename(columns=ren).rename(columns={"__l": nm["label"], "__s": nm["score"]})
     gdt = fr.get("group_dtype")
-    for c in fr["group_cols"]:
+    for k0, c0 in enumerate(fr["group_cols"]):
+        c = fr["names"]["groups"][k0] if fr.get("names") else c0
         if gdt in ("category", "string"):
             df[c] = df[c].astype(gdt)
         elif gdt == "category_reordered":
             # string categories in a non-lexical order, with one category that no row uses
-            cats = sorted(set(data[c]), reverse=True) + ["~unused~"]
-            df[c] = pd.Categorical(data[c], categories=cats)
+            cats = sorted(set(data[c0]), reverse=True) + ["~unused~"]
+            df[c] = pd.Categorical(data[c0], categories=cats)
     if fr.get("index") == "shuffled":
         idx = list(range(len(rows)))
         idx = idx[1::2] + idx[0::2]
@@ -376,8 +388,20 @@ def execute(scn, ctx):
             else:
                 config = M.build_config(dict(sspec, **cfg))
             kw = {"bootstrap_ci": True, "bootstrap_config": config, "alpha": op["alpha"]}
-        call = lambda: L.showbias(df, group_columns=gc, label_column="label", score_column="score", metric=metric,  # noqa: E731
-                                  normalize=norm, pos_label=pos_label, score_class=sc, equal_class=ec, threshold=thr_arg, **kw)
+        nm_ = fr.get("names")
+        gmap = {c: nm_["groups"][k] for k, c in enumerate(cols)} if nm_ else {}
+        gc_arg = [gmap.get(c, c) for c in gc] if multi else gmap.get(gc, gc)
+        used = [gmap.get(c, c) for c in used]
+        # optional arguments the caller leaves out take their documented defaults (score_class "pos", equal_class "pos",
+        # pos_label 1, normalize None); they are only left out when the scenario's value is that default
+        opt = {"normalize": norm, "pos_label": pos_label, "score_class": sc, "equal_class": ec}
+        defaults = {"normalize": None, "pos_label": 1, "score_class": "pos", "equal_class": "pos"}
+        for k_ in op.get("omit", []):
+            if k_ in opt and opt[k_] == defaults[k_] and type(opt[k_]) is type(defaults[k_]):
+                del opt[k_]
+                probe("optional_argument_omitted")
+        call = lambda: L.showbias(df, group_columns=gc_arg, label_column=nm_["label"] if nm_ else "label",  # noqa: E731
+                                  score_column=nm_["score"] if nm_ else "score", metric=metric, threshold=thr_arg, **opt, **kw)
         res = run_op(ctx, call, op.get("faults"))
         n_draws += res["draws"]
         fired = [kd for _, kd in res["fired"]]
